@@ -105,7 +105,7 @@ func analyzePipeline(c *core.Ctx, ruleDecl, ruleFlow string) {
 	}
 	in.Stubs["analysis.RewriteClause"] = func(in *ordabs.Interp, _ ordabs.Value, args []ordabs.Value) ([]ordabs.Value, error) {
 		cl := args[1].(*ordabs.Rec)
-		tr.order = append(tr.order, "RewriteClause")
+		tr.order = append(tr.order, "RewriteClause:"+symOf(cl))
 		tr.rewrites = append(tr.rewrites, symOf(cl))
 		m, _ := args[0].(*ordabs.Map)
 		has := false
@@ -122,7 +122,7 @@ func analyzePipeline(c *core.Ctx, ruleDecl, ruleFlow string) {
 	}
 	in.Stubs["analysis.Analyzer.CheckRule"] = func(in *ordabs.Interp, _ ordabs.Value, args []ordabs.Value) ([]ordabs.Value, error) {
 		s := symOf(args[0])
-		tr.order = append(tr.order, "CheckRule")
+		tr.order = append(tr.order, "CheckRule:"+s)
 		tr.rules = append(tr.rules, s)
 		if strings.HasPrefix(s, "rejected") {
 			return []ordabs.Value{ordabs.ErrVal{Tag: "rule " + s}}, nil
@@ -131,7 +131,7 @@ func analyzePipeline(c *core.Ctx, ruleDecl, ruleFlow string) {
 	}
 	in.Stubs["functional.EvalAtom"] = func(in *ordabs.Interp, _ ordabs.Value, args []ordabs.Value) ([]ordabs.Value, error) {
 		a := args[0].(*ordabs.Rec)
-		tr.order = append(tr.order, "EvalAtom")
+		tr.order = append(tr.order, "EvalAtom:"+symOf(a))
 		tr.evals = append(tr.evals, symOf(a))
 		return []ordabs.Value{rename(a, "_ev"), nil}, nil
 	}
@@ -323,18 +323,17 @@ func analyzePipeline(c *core.Ctx, ruleDecl, ruleFlow string) {
 				bad = fmt.Sprintf("%s: ProgramInfo.InitialFacts has [%s], want the evaluated heads of the checked facts [%s]", desc, strings.Join(gotFacts, " "), strings.Join(wantFacts, " "))
 			}
 			if bad == "" {
-				// per clause: rewrite, then check, then (for a fact) evaluate
-				last := ""
+				// per clause: rewritten before it is checked, checked before (a fact) is evaluated; the stages may be
+				// interleaved per clause or run as separate passes
+				seen := map[string]bool{}
 				for _, st := range tr.order {
-					if st == "CheckRule" && last != "RewriteClause" {
-						bad = desc + ": CheckRule runs without a RewriteClause immediately before it"
+					if x, ok := strings.CutPrefix(st, "CheckRule:"); ok && !seen["RewriteClause:"+strings.TrimSuffix(x, "_rw")] {
+						bad = desc + ": CheckRule sees " + x + " before that clause was rewritten"
 					}
-					if st == "EvalAtom" && last != "CheckRule" {
-						bad = desc + ": a fact is evaluated before it was checked"
+					if x, ok := strings.CutPrefix(st, "EvalAtom:"); ok && !seen["CheckRule:"+x] {
+						bad = desc + ": the fact " + x + " is evaluated before it was checked"
 					}
-					if st == "RewriteClause" || st == "CheckRule" || st == "EvalAtom" {
-						last = st
-					}
+					seen[st] = true
 				}
 			}
 			if bad != "" {
@@ -357,8 +356,6 @@ func analyzePipeline(c *core.Ctx, ruleDecl, ruleFlow string) {
 				n++
 				if errv == nil || pi != nil {
 					bad = fmt.Sprintf("clause %d of 3 is rejected by CheckRule: Analyze still returns a program", i+1)
-				} else if len(tr.rules) != i+1 {
-					bad = fmt.Sprintf("clause %d of 3 is rejected by CheckRule: %d clauses were checked, want %d (stop at the first error)", i+1, len(tr.rules), i+1)
 				}
 			}
 		}
